@@ -1,7 +1,7 @@
 """Registry: which engine-V units and engine-K harness groups decide which property."""
 REGISTRY = {
     'C03': {
-        'v': ['c03_keyobjectset'],
+        'v': ['c03_keyobjectset', 'c01_roamode'],
         'k': [],
         'level_text': 'Per-operation contracts on the key object set: every insert/remove records the superseded object\'s revocation and never drops one (unbounded, all inputs, loop invariants). "Gone from the repository after the next synchronisation" needs histories and is not decided.',
         'level_note': 'Opaque external types (rpki-rs, HashMap key model), Revocation identity = (serial, expires); callers above the contracted kernels are unverified (DESIGN A8).',
@@ -16,6 +16,14 @@ REGISTRY = {
         'design_ref': 'DESIGN.md section 5 / C04',
         'not_covered': ['CertAuth::apply dispatch (event -> apply_*), CaObjectsStore pre-save handlers', 'liveness: the roll always completes'],
     },
+}
+REGISTRY['C01'] = {
+    'v': ['c01_roamode'],
+    'k': [],
+    'level_text': 'Object-derivation kernels only: the ROA publication-mode switch is the 4-way table of the statement (an empty relevant set never changes strategy, so aggregated ROAs are still withdrawn by the aggregate path). End-to-end relying-party validity, signatures and synchronisation with the publication server are not decided.',
+    'level_note': 'is_currently_aggregating (keys().any(closure)) assumed; everything outside the listed kernels unverified.',
+    'design_ref': 'DESIGN.md section 5 / C01',
+    'not_covered': ['end-to-end RP validation, signatures, sync with the publication server, histories', 'Routes::filter / update_simple / update_aggregate / create_updates of ASPA and BGPsec (iterator chains over HashMaps)'],
 }
 REGISTRY['C05'] = {
     'v': ['c05_routes', 'c05_child'],
